@@ -11,8 +11,6 @@ Tie (harness/global.cpp, ocaml/driver_global.ml):
   SP  spreadCoordX/Y on dyadic inputs (every binary32 operation exact): exact equality with the model.
 Completion, finiteness and the binary32 rounding are validated by these runs only (not provable: Eigen CG)."""
 import json
-import os
-import struct
 from fractions import Fraction
 
 from tools import common
@@ -44,13 +42,11 @@ def binfrac(s):
 
 
 def run_driver(driver, cases, timeout=3000):
+    """the extracted model on its case lines, in parallel chunks, resilient to a dying process"""
     if not cases:
         return []
-    rc, out, err = common.sh([driver], inp="\n".join(cases) + "\n", timeout=timeout)
-    res = out.split("\n")
-    if res and res[-1] == "":
-        res = res[:-1]
-    return res + ["<missing>"] * (len(cases) - len(res))
+    res, _, _ = common.run_both([driver], None, cases, timeout=timeout, chunk=1500)
+    return res
 
 
 def parse_sc(case):
@@ -316,6 +312,37 @@ class Eval:
                     return
 
 
+def vm_crosscheck(harness, driver, seed, count=16):
+    """the extracted code against evaluation inside Coq (vm_compute) on a few dyadic spreading cases"""
+    import re
+    sp = common.harness_gen(harness, ["spread", seed + 77, count])
+    impl, _, _ = common.run_both([harness, "run"], None, sp)
+    cases = [r.split(" | ")[0] for r in impl if r.startswith("SC ")]
+
+    def q(m, e):
+        return "((%d) # %d)%%Q" % (m, 1 << -e) if e < 0 else "((%d) # 1)%%Q" % (m << e)
+
+    def gal(case):
+        t = case.split()
+        n, bins, dem = parse_sc(case)
+        tg = t[len(t) - 2 * n:]
+        bs = "; ".join("{| b_lo := (%d)%%Z; b_hi := (%d)%%Z; b_cells := [%s] |}" % (lo, hi, "; ".join("%d%%nat" % c for c in cs))
+                       for lo, hi, cs in bins)
+        return "map (fun q => (Qnum q, Zpos (Qden q))) (map Qred (spread_coord (%s)%%Z (%s)%%Z [%s] [%s] [%s]))" % (
+            t[1], t[2], bs, "; ".join(q(int(tg[2 * i]), int(tg[2 * i + 1])) for i in range(n)), "; ".join("((%d) # 1)%%Q" % d for d in dem))
+    res = common.vm_eval("C06", "From Coq Require Import List ZArith QArith. Import ListNotations. Require Import CV.Spread. "
+                                "Local Open Scope Z_scope.", [gal(c) for c in cases])
+    if res is None:
+        return 0, ["vm_compute evaluation of spread_coord failed"]
+    bad = []
+    for c, r, m in zip(cases, res, run_driver(driver, cases)):
+        want = [binfrac(x) for x in m.split(" | ")[0].split()]
+        got = [Fraction(int(a), int(b)) for a, b in re.findall(r"\(\s*(-?\d+)\s*,\s*(\d+)\s*\)", r)]
+        if got != want:
+            bad.append("vm_compute %s vs extracted %s on %s" % (r[:120], m[:120], c[:200]))
+    return len(cases), bad
+
+
 def gen_cases(ctx, harness):
     lines = common.corpus("C06", ("GP ", "GR ", "SP "))
     ncorpus = len(lines)
@@ -335,7 +362,7 @@ def report(ctx, ev, proof_ok, proof, lines):
     """violations first (concrete inputs); model/code differences without a failing input afterwards"""
     seen = set()
     for kind, case, detail in ev.violations:
-        key = kind.split(":")[0]
+        key = "".join(ch for ch in kind.split(":")[0] if not ch.isdigit())
         if key in seen:
             continue
         seen.add(key)
@@ -362,6 +389,9 @@ def run(ctx):
     lines, ncorpus = gen_cases(ctx, harness)
     ev = Eval(harness, driver)
     ev.run(lines)
+    nvm, vmbad = vm_crosscheck(harness, driver, ctx.seed)
+    for b in vmbad[:1]:
+        ev.differences.append(("extracted OCaml model differs from vm_compute inside Coq", "-", b))
     report(ctx, ev, proof_ok, proof, lines)
     gp = [l for l in lines if l.startswith("GP ")]
     cov = dict(proof)
@@ -376,7 +406,7 @@ def run(ctx):
         "rule": "distinct case lines; non-trivial = GP: >= 2 upper-bound exposures and >= 2 movable cells; SP: some bin with >= 2 cells of "
                 "positive demand; GR: more than one bin in x or y",
         "samples": [gp[0][:400] if gp else "", lines[len(lines) // 2][:400], lines[-1][:400]],
-        "corpus_cases": ncorpus, "kinds": {k: ev.stats.get(k, 0) for k in ("GP", "GR", "SP")},
+        "corpus_cases": ncorpus, "vm_compute_crosschecked_cases": nvm, "kinds": {k: ev.stats.get(k, 0) for k in ("GP", "GR", "SP")},
         "domain": "rows >= 4 row heights wide, >= 1 movable cell of positive area, clipped capacity > 0 (others SKIPped and counted), "
                   "CG tolerance 1e-1..1e-6, approximation/cutoff distances >= 0.1, all 4 net models, all 6 cost models, line/diag/square "
                   "windows, 1-D transport on/off, 0-3 rough steps, bin size 1-25, export blending -0.5..1.5, default side margin 0.9; "
